@@ -7,12 +7,12 @@ Definition rkey (r : range) : string * (Z * Z) := (r_file r, (p_byte (r_start r)
 
 Definition tkey (t : target) :=
   (addr_string (t_local t), (addr_string (t_addr t), (option_map rkey (t_rng t),
-    (t_scope t, (type_name (t_type t), t_name t))))).
+    (t_scope t, (type_name (t_type t), (t_name t, option_map rkey (t_def t))))))).
 
 Definition rkey_cmp := pair_cmp String.compare (pair_cmp Z.compare Z.compare).
 Definition key_cmp :=
   pair_cmp String.compare (pair_cmp String.compare (pair_cmp (opt_cmp rkey_cmp)
-    (pair_cmp String.compare (pair_cmp String.compare String.compare)))).
+    (pair_cmp String.compare (pair_cmp String.compare (pair_cmp String.compare (opt_cmp rkey_cmp)))))).
 
 Lemma proper_key : proper key_cmp.
 Proof.
@@ -24,7 +24,7 @@ Lemma orange_cmp_key a b : orange_cmp a b = opt_cmp rkey_cmp (option_map rkey a)
 Proof. destruct a, b; reflexivity. Qed.
 
 Lemma target_cmp_key a b : target_cmp a b = key_cmp (tkey a) (tkey b).
-Proof. unfold target_cmp. rewrite orange_cmp_key. reflexivity. Qed.
+Proof. unfold target_cmp. rewrite !orange_cmp_key. reflexivity. Qed.
 
 Definition key_ltb := ltb_of key_cmp.
 
@@ -50,7 +50,7 @@ Qed.
 
 (* whichever (unstable) sort Go runs and whatever order the targets were collected in, the
    sequence of sort keys of the result is the same: the order of any two targets that differ in
-   address, local address, position, scope, type or name is determined *)
+   address, local address, position, scope, type, name or definition position is determined *)
 Lemma sort_keys_unique l l' l1 l2 :
   Permutation l l' -> is_sort targets_less l l1 -> is_sort targets_less l' l2 -> map tkey l1 = map tkey l2.
 Proof.
